@@ -1052,6 +1052,12 @@ evhttp_handle_chunked_read(struct evhttp_request *req, struct evbuffer *buf)
 				break;
 			}
 			len_p = strlen(p);
+			/* ... and a line that arrived in one piece is held to
+			 * the same limit as one that did not */
+			if (len_p > req->evcon->max_headers_size) {
+				mm_free(p);
+				return (DATA_TOO_LONG);
+			}
 			/* the last chunk is on a new line? */
 			if (len_p == 0) {
 				mm_free(p);
@@ -1070,7 +1076,7 @@ evhttp_handle_chunked_read(struct evhttp_request *req, struct evbuffer *buf)
 			/* the chunk size may be followed by (bad) whitespace
 			 * and by chunk extensions, which are ignored
 			 * (RFC 9112 7.1.1) */
-			error = (*p == '\0' ||
+			error = (*p == '\0' || endp == p /* no digits at all */ ||
 			    (*endp != '\0' && *endp != ' ' && *endp != '\t' &&
 				*endp != ';') ||
 			    ntoread < 0);
@@ -1135,6 +1141,9 @@ evhttp_read_trailer(struct evhttp_connection *evcon, struct evhttp_request *req)
 
 	switch (evhttp_parse_headers_(req, buf)) {
 	case DATA_CORRUPTED:
+		/* a malformed trailer field is not an oversized message */
+		evhttp_connection_fail_(evcon, EVREQ_HTTP_INVALID_HEADER);
+		break;
 	case DATA_TOO_LONG:
 		evhttp_connection_fail_(evcon, EVREQ_HTTP_DATA_TOO_LONG);
 		break;
